@@ -137,6 +137,9 @@ type Need struct {
 	Val  byte `json:"val,omitempty"`
 	Neg  bool `json:"neg,omitempty"`
 	Peek bool `json:"peek,omitempty"`
+	// Early (implies Peek) answers "no" as soon as byte Pos is available and
+	// differs from Val, and "yes" only once N bytes are available.
+	Early bool `json:"early,omitempty"`
 }
 
 func (*Need) CaddyModule() caddy.ModuleInfo {
@@ -151,6 +154,9 @@ func (m *Need) Verdict(avail []byte) int {
 			return 0
 		}
 		return 1
+	}
+	if m.Early && len(avail) > m.Pos && (avail[m.Pos] == m.Val) == m.Neg {
+		return 0
 	}
 	if len(avail) < m.N {
 		return 2
@@ -167,7 +173,13 @@ func (m *Need) Match(cx *layer4.Connection) (bool, error) {
 		return !m.Neg, nil
 	}
 	var data []byte
-	if m.Peek {
+	if m.Early {
+		data = cx.MatchingBytes()
+		if len(data) > m.Pos && (data[m.Pos] == m.Val) == m.Neg {
+			return false, nil
+		}
+	}
+	if m.Peek || m.Early {
 		data = cx.MatchingBytes()
 		if len(data) < m.N {
 			if len(data) >= layer4.MaxMatchingBytes {
@@ -199,6 +211,8 @@ func (*Need3) CaddyModule() caddy.ModuleInfo {
 // ErrMatcher returns an error (not "need more") once N bytes are available.
 type ErrMatcher struct {
 	N int `json:"n,omitempty"`
+	// If First is non-zero the error is returned only for streams whose first byte is First; others get "no".
+	First byte `json:"first,omitempty"`
 }
 
 var ErrVerifMatcher = errors.New("verif matcher error")
@@ -208,6 +222,15 @@ func (*ErrMatcher) CaddyModule() caddy.ModuleInfo {
 }
 
 func (m *ErrMatcher) Match(cx *layer4.Connection) (bool, error) {
+	if m.First != 0 {
+		b := make([]byte, 1)
+		if _, err := io.ReadFull(cx, b); err != nil {
+			return false, err
+		}
+		if b[0] != m.First {
+			return false, nil
+		}
+	}
 	if m.N > 0 {
 		if _, err := io.ReadFull(cx, make([]byte, m.N)); err != nil {
 			return false, err
